@@ -42,10 +42,16 @@ theorem rtsp_deliver_only_on_recv (evs : List Ev) (p q : Trace) (e : Ev) (o : Li
   cases e with
   | send => obtain ⟨r', c, ho, _⟩ := hl; rw [ho] at hd; simp at hd
   | burn => have : o = [] := hl; rw [this] at hd; cases hd
+  | sendFail => have : o = [.sendErr] := hl; rw [this] at hd; simp at hd
   | msg kd k' v' => have : o = [] := hl; rw [this] at hd; cases hd
   | recv k' v' => exact ⟨k', v', rfl⟩
   | timeout r' =>
     rcases hl with ho | ⟨ho, _⟩ <;> rw [ho] at hd <;> simp at hd
+
+/-- an exchange whose transmission raises consumes its CSeq and leaves no waiter behind -/
+theorem rtsp_failed_send (evs : List Ev) (p q : Trace) (o : List Out)
+    (h : rtrace evs = p ++ (.sendFail, o) :: q) : o = [.sendErr] :=
+  (rinv_run evs).good p _ o q h
 
 /-- **Each exchange completes at most once, and never with an internal error.** -/
 theorem rtsp_at_most_one_outcome (evs : List Ev) (r : Nat) : outcomes r (outs (rtrace evs)) ≤ 1 :=
